@@ -190,6 +190,7 @@ Verdict run_case(Choices& c, CaseLog& log)
     if (f.n_rot) log.label("xf:rotation");
     if (f.n_improper) log.label("xf:improper");
     if (f.n_compose) log.label("xf:composed");
+    if (f.n_tiny_offset) log.label("placement:tiny-offset");
     if (f.n_tinyrot) log.label("xf:tiny-rotation");
     if (f.n_planted) log.label("near-coincident planted");
     if (f.n_daughter_rot) log.label("daughter with rotation");
